@@ -126,10 +126,12 @@ def run(ctx):
     for _ in range(2 if ctx.tier == "quick" else 30):
         # tens of intervals in each curve
         one(ctx, P.gen_truth(ctx.rng, n_events=ctx.rng.randint(20, 35)), ctx.rng.choice([1.0, 2.0, 2.5]))
-    for _ in range(6 if ctx.tier == "quick" else 100):
-        # many pieces low on the curve that share no level with anything, then the main body
-        one(ctx, P.gen_truth(ctx.rng, n_events=ctx.rng.randint(2, 7), isolated=ctx.rng.randint(3, 30)),
-            ctx.rng.choice([1.0, 0.5, 2.0]))
+    for k_ in range(6 if ctx.tier == "quick" else 100):
+        # many pieces low on the curve that share no level with anything, then the main body; the first ones of every run
+        # have a main body of two or three pieces numbered 7, 8(, 9) / 15, 16(, 17): ids that a hash set does not hand back
+        # in ascending order
+        n_ev, n_iso = ((2, 7), (3, 7), (2, 15), (3, 23))[k_] if k_ < 4 else (ctx.rng.randint(2, 7), ctx.rng.randint(3, 30))
+        one(ctx, P.gen_truth(ctx.rng, n_events=n_ev, isolated=n_iso), ctx.rng.choice([1.0, 0.5, 2.0]))
     for _ in range(2 if ctx.tier == "quick" else 20):
         fresh_process_workflow(ctx, P.gen_truth(ctx.rng, noise=ctx.rng.choice([0.0, 0.4])), ctx.rng.choice([1.0, 0.5, 2.0]))
 
